@@ -23,7 +23,7 @@ RenderClauses(e) ==
 ParseClauses(e) ==
   <<
    e.class \in {"ok", "error"},
-   e.ms <= 2000 + e.len,
+   e.ms <= 10000 + e.len,
    e.peak_kb <= 4096 + 64 * e.len
   >>
 Clauses(e) == IF e.ev = "render" THEN RenderClauses(e) ELSE ParseClauses(e)
